@@ -215,6 +215,10 @@ thread_local! {
     static FOREIGN: Cell<Option<RootHandle>> = const { Cell::new(None) };
 }
 
+thread_local! {
+    static FOREIGN_SIGNAL: Cell<Option<Signal<i64>>> = const { Cell::new(None) };
+}
+
 fn via_foreign() -> Option<RootHandle> {
     FOREIGN.with(|f| f.get())
 }
@@ -459,6 +463,13 @@ fn exec1(env: &Env, s: &Stmt) -> Env {
                 },
                 _ => panic!("ILL-FORMED: set of a non-signal"),
             }
+            // `@F` scenarios: every write is mirrored into a signal of the foreign root (two apps sharing state): inside a batch the
+            // writes then go to the two roots in turn, and inside a computation the foreign root's effect runs nested in it
+            if via_foreign().is_some() {
+                if let Some(fs) = FOREIGN_SIGNAL.with(|f| f.get()) {
+                    fs.set(fs.get_untracked() + 1);
+                }
+            }
             env.clone()
         }
         Stmt::SetSilent(x, e) => {
@@ -702,6 +713,24 @@ fn run_scenario(line: &str, out: &mut impl Write) {
         for ty in 0..4 {
             provide(ty, -777);
         }
+        // a signal of the foreign root and an effect of the foreign root that reads it -- and, with tracking, every live signal of the
+        // scenario's root: a read of another root's signal belongs to no computation of that root, whoever is on the stack
+        let fs = create_signal(0i64);
+        FOREIGN_SIGNAL.with(|f| f.set(Some(fs)));
+        create_effect(move || {
+            fs.track();
+            let sigs: Vec<Signal<i64>> = REGISTRY
+                .try_with(|r| match r.try_borrow() {
+                    Ok(r) => r.values().filter_map(|b| if let Bind::Sig(s) = b { Some(*s) } else { None }).collect(),
+                    Err(_) => Vec::new(),
+                })
+                .unwrap_or_default();
+            for s in sigs {
+                if s.is_alive() {
+                    s.track();
+                }
+            }
+        });
     });
     FOREIGN.with(|f| f.set(if via { Some(foreign) } else { None }));
     let root = create_root(|| {
